@@ -17,7 +17,7 @@ import numpy
 
 from ..common import Run, exc_class, MachineryError, quiet_pygaps
 from .. import tlc
-from ..units_common import Atoms, enc, sparse, n2, custom_adsorbate, custom_material, close
+from ..units_common import dec_slot, Atoms, enc, sparse, n2, custom_adsorbate, custom_material, close
 from ..iso_common import (PRES_U, MOLAR_U, MASS_U, VOL_U, MODES, LBASES, MBASES, ALL_LMU, lunits, munits, labels_of, make_point, py_labels)
 from .c02 import Fixture, all_p, all_l, all_m, state, BOGUS
 
@@ -59,8 +59,13 @@ def d(x):
     return {"none": None, "empty": "", "bogus": BOGUS}.get(x, x)
 
 
+_SLOT = {"pm": "pmode", "pu": "punit", "lb": "lbasis", "lu": "lunit", "mb": "mbasis", "mu": "munit"}
+_nkw = [0]
+
+
 def kwargs_of(g, acc):
     kw = {}
+    _nkw[0] += 1
     name = {"pm": "pressure_mode", "pu": "pressure_unit", "lb": "loading_basis", "lu": "loading_unit", "mb": "material_basis", "mu": "material_unit"}
     takes_p = acc.endswith(".pressure") or acc.endswith("_at")
     takes_l = acc.endswith(".loading") or acc in ("p.loading_at", "m.loading_at", "p.pressure_at", "m.pressure_at", "v.pressure_at", "p.spreading_pressure_at")
@@ -71,7 +76,7 @@ def kwargs_of(g, acc):
             return None
         if k in ("lb", "lu", "mb", "mu") and not takes_l:
             return None
-        kw[name[k]] = d(v)
+        kw[name[k]] = dec_slot(v, _SLOT[k], _nkw[0])
     return kw
 
 
